@@ -21,7 +21,15 @@ COUNTERS = [0, 1, 2 ** 31 - 1, 2 ** 31, 2 ** 32 - 1]
 ID_LENS = [1, 2, 16, 255, 256, 1023]
 EXTS = [None, cbor2.dumps({"credProtect": 2}), cbor2.dumps({"hmac-secret": True, "x": [1, {"y": b"z", "n": None}], "m": {"k": -5}})]
 CD = [{}, {"extra": {"crossOrigin": False, "topOrigin": "https://top.example", "unknown": [1, 2, {"a": None}]}},
-      {"token_binding": {"status": "supported"}}, {"token_binding": {"status": "present", "id": "abc"}}, {"token_binding": "unused"}]
+      {"token_binding": {"status": "supported"}}, {"token_binding": {"status": "present", "id": "abc"}}, {"token_binding": "unused"},
+      # the same client data written differently: whitespace, \u escapes, another member order
+      {"style": "pretty"}, {"style": "escaped"}, {"order": ("origin", "challenge", "type"), "cross_origin": True}]
+
+
+def origin_for(rp_id, k):
+    """origins a conformant client reports: web origins with and without a port, and the platform forms of native apps"""
+    return ["https://" + rp_id, "https://" + rp_id + ":8443", "android:apk-key-hash:0vxKQK0dklP_9SoqqZ5iNlSfMd7fXZ1WBnx1yZLj6ks",
+            "ios:bundle-id:com.example.app", "https://" + rp_id][k % 5]
 
 
 RP_IDS = ["example.com", "Login.Example.org", "b\u00fccher.example", "localhost", "xn--bcher-kva.example", "a.b.c.d.example"]
@@ -40,7 +48,7 @@ def work(tasks, idx):
                 flags |= core.UV
             rp_id = RP_IDS[(ci + counter + flags) % len(RP_IDS)]      # whatever string the RP uses as its id
             a, e, _ = faults.build_assertion(c, flags=flags, counter=counter, stored=stored, require_uv=uvreq, ext=ext,
-                                             cd_extra=CD[cdi].get("extra"), rp_id=rp_id, origin="https://" + rp_id)
+                                             cd_kwargs=CD[cdi], rp_id=rp_id, origin=origin_for(rp_id, ci + counter + cdi))
             code = cases.run_auth(a, e)
             res.evaluations += 1
             tie.check(cases.auth_case(a, e), code, label=list(t))
@@ -65,7 +73,7 @@ def work(tasks, idx):
         if fmt in attest.CHAIN_FORMATS and fmt != "fido-u2f":
             kw["n_intermediates"] = variant % 3
         kw["rp_id"] = RP_IDS[variant % len(RP_IDS)]
-        kw["origin"] = "https://" + kw["rp_id"]
+        kw["origin"] = origin_for(kw["rp_id"], variant)
         cred_id = bytes((variant + i) % 256 for i in range(idlen))
         if variant % 6 == 1 and idlen >= 17:
             # a credential id that happens to contain the byte pattern the parser's Ed25519 work-around looks for
@@ -109,7 +117,7 @@ def run(ctx, res):
             for _ in range(2 if ctx.quick() else 12):
                 counter = rng.choice(COUNTERS)
                 stored = 0 if counter == 0 else rng.choice([0, counter - 1])
-                tasks.append(("auth", ci, flags, counter, rng.choice(EXTS), rng.randrange(2), stored, bool(flags & core.UV) and rng.random() < 0.5))
+                tasks.append(("auth", ci, flags, counter, rng.choice(EXTS), rng.randrange(len(CD)), stored, bool(flags & core.UV) and rng.random() < 0.5))
     for fmt in _reg.FORMATS:
         choices = _reg.cred_choices(fmt)
         atts = ATT_KEYS.get(fmt, [None])
